@@ -77,6 +77,13 @@ def gen_sequence(rng, guarded, twins):
             emit(("new", fresh_name(), p))
         elif roll < 0.62:
             f = rng.randrange(n)
+            if rng.random() < 0.15:
+                # a relation attached while it is still empty (filled later with add_child), possibly a second one with
+                # the same bounds under the same feature
+                emit(("addrel", f, f, *rng.choice([(0, 1), (1, 1), (1, 2)]), []))
+                if rng.random() < 0.5:
+                    emit(("addrel", f, f, *m.rels[f][-1][1:3], []))
+                continue
             if guarded:
                 pool = [c for c in free if c != f]
                 if not pool:
